@@ -7,18 +7,62 @@ import ElysModel.Drv.Hist
 open Lean
 namespace Elys.Drv.SwapFairH
 
+structure PoolW where
+  id : Nat
+  oracle : Bool
+  weights : List (String × Nat)
+deriving Inhabited
+
 structure S where
   started : Bool := false
+  pools : List PoolW := []
+  prev : Option Snapshot := none
   deriving Inhabited
+
+/-- Π reserveᵢ ^ weightᵢ over the pool's assets (integer weights: an exact integer). -/
+def weightedProduct (ws : List (String × Nat)) (assets : List (String × Int)) : Int :=
+  ws.foldl (fun acc (d, w) => acc * ((assets.lookup d).getD 0) ^ w) 1
 
 def valueOf (prices : FMap String) (ms : List Move) : Int := ms.foldl (fun a m => a + m.amt * prices.get m.denom) 0
 
 def handle (s : S) (i : Nat) (j : Json) : S × List Json :=
   match fStr? j "t" with
-  | some "hist.begin" => ({ started := true }, [verdictOk i])
+  | some "hist.begin" =>
+    let pools := ((fld j "pools").getArr?.toOption.getD #[]).toList.map fun p =>
+      let ds := ((fld p "denoms").getArr?.toOption.getD #[]).toList.map (fun x => x.getStr?.toOption.getD "")
+      let ws := ((fld p "weights").getArr?.toOption.getD #[]).toList.map (fun x => ((jInt? x).getD 0).toNat)
+      { id := ((fInt? p "id").getD 0).toNat, oracle := (fld p "oracle").getBool?.toOption.getD false, weights := ds.zip ws : PoolW }
+    ({ started := true, pools := pools, prev := some (Snapshot.parse (fld j "obs")) }, [verdictOk i])
   | some "hist.step" =>
     let st := parseStep j
-    if st.failed then (s, [verdictOk i]) else
+    if st.failed then ({ s with prev := none }, [verdictOk i]) else
+    -- constant-product pools (no oracle pricing), equal weights: in a block in which nobody joined or left (the pool's total shares
+    -- are what they were), every trade was priced on the curve or worse for the trader, so the product of the reserves has not
+    -- fallen beyond one base unit per transfer. (Amounts out are truncated and amounts in rounded up; with equal weights the power is an
+    -- integer power, exact; the fee skim is rounded up.)
+    let kviols : List Json := match s.prev with
+      | none => []
+      | some pre => st.obs.ammPools.filterMap fun p =>
+        match s.pools.find? (fun q => q.id == p.id), pre.ammPools.find? (fun q => q.id == p.id) with
+        | some pw, some po =>
+          let equal := match pw.weights with
+            | (_, w) :: rest => w > 0 && rest.all (fun x => x.2 == w)
+            | [] => false
+          if pw.oracle || p.oracle || po.oracle || !equal || p.shares != po.shares || pw.weights.length != p.assets.length then none else
+          let addr := p.addr
+          let ws := pw.weights.map (fun x => (x.1, 1))
+          let kBefore := weightedProduct ws po.assets
+          let kAfter := weightedProduct ws p.assets
+          -- allowance: the fee skimmed off the incoming amount is rounded up, so each transfer may leave the pool one base unit short of
+          -- the curve; one unit of an asset changes the product by the product of the other reserves
+          let touching := (st.endMoves ++ st.beginMoves ++ (st.txs.map (·.moves)).flatten).filter (fun m => m.src == addr || m.dst == addr)
+          let perUnit := p.assets.foldl (fun acc a => max acc (weightedProduct (ws.filter (fun x => x.1 != a.1)) p.assets)) 0
+          if kAfter + perUnit * touching.length ≥ kBefore then none else
+            some (verdictViol i "C03.constant_product_not_decreasing" (Json.mkObj [("pool", Json.num p.id),
+              ("before", Json.arr (po.assets.map (fun (d, a) => Json.arr #[Json.str d, mkInt a])).toArray),
+              ("after", Json.arr (p.assets.map (fun (d, a) => Json.arr #[Json.str d, mkInt a])).toArray)]))
+        | _, _ => none
+    let s := { s with prev := some st.obs }
     let prices := st.obs.denomPrices
     let sends := st.endMoves.filter (fun m => m.kind == "send")
     let viols := st.obs.ammPools.filterMap fun p =>
@@ -37,6 +81,7 @@ def handle (s : S) (i : Nat) (j : Json) : S × List Json :=
         some (verdictViol i "C03.oracle_pool_pays_le_in" (Json.mkObj [("pool", Json.num p.id), ("valueOutRaw", mkInt vOut), ("valueInRaw", mkInt vIn),
           ("allowanceRaw", mkInt tol), ("outs", Json.arr (outs.map (fun m => Json.arr #[Json.str m.dst, Json.str m.denom, mkInt m.amt])).toArray),
           ("ins", Json.arr (ins.map (fun m => Json.arr #[Json.str m.src, Json.str m.denom, mkInt m.amt])).toArray)]))
+    let viols := viols ++ kviols
     (s, if viols.isEmpty then [verdictOk i] else viols)
   | some "stats" => (s, [])
   | _ => (s, [verdictBad i "unknown t"])
